@@ -13,3 +13,8 @@ pub fn sender_socket(ipv4: bool) -> io::Result<UdpSocket> {
 pub fn join_multicast(network_scope: NetworkScope) -> io::Result<UdpSocket> {
     simrt::net::join_multicast(network_scope.is_v4())
 }
+
+#[cfg(feature = "async-tokio")]
+pub fn nonblocking(socket: UdpSocket) -> io::Result<simrt::shim_tokio::net::UdpSocket> {
+    simrt::shim_tokio::net::UdpSocket::from_std(socket)
+}
